@@ -21,10 +21,10 @@ import (
 // ---- fake underlying writers that record exactly what they receive and fail on demand ------------------
 
 type underLog struct {
-	h      http.Header
-	hdrs   []int
-	body   []byte
-	budget int // bytes the writer still accepts (negative: unlimited)
+	h          http.Header
+	hdrs       []int
+	body       []byte
+	budget     int // bytes the writer still accepts (negative: unlimited)
 	flushFails bool
 }
 
@@ -117,10 +117,13 @@ func (f fakeRich) Hijack() (net.Conn, *bufio.ReadWriter, error) {
 	*f.calls = append(*f.calls, "hijack")
 	return nil, nil, nil
 }
-func (f fakeRich) Push(string, *http.PushOptions) error { *f.calls = append(*f.calls, "push"); return nil }
-func (f fakeRich) SetReadDeadline(time.Time) error      { *f.calls = append(*f.calls, "rdl"); return nil }
-func (f fakeRich) SetWriteDeadline(time.Time) error     { *f.calls = append(*f.calls, "wdl"); return nil }
-func (f fakeRich) EnableFullDuplex() error              { *f.calls = append(*f.calls, "duplex"); return nil }
+func (f fakeRich) Push(string, *http.PushOptions) error {
+	*f.calls = append(*f.calls, "push")
+	return nil
+}
+func (f fakeRich) SetReadDeadline(time.Time) error  { *f.calls = append(*f.calls, "rdl"); return nil }
+func (f fakeRich) SetWriteDeadline(time.Time) error { *f.calls = append(*f.calls, "wdl"); return nil }
+func (f fakeRich) EnableFullDuplex() error          { *f.calls = append(*f.calls, "duplex"); return nil }
 
 type failingReader struct {
 	data []byte
@@ -146,11 +149,11 @@ func (r *failingReader) Read(p []byte) (int, error) {
 // ---- model state and edges ------------------------------------------------------------------------------
 
 type wState struct {
-	Status int   `json:"status"`
-	Size   int   `json:"size"`
-	Hij    bool  `json:"hij"`
-	Hdrs   []int `json:"hdrs"`
-	Body   int   `json:"body"`
+	Status int    `json:"status"`
+	Size   int    `json:"size"`
+	Hij    bool   `json:"hij"`
+	Hdrs   []int  `json:"hdrs"`
+	Body   int    `json:"body"`
 	Ct     string `json:"ct"`
 }
 
@@ -421,6 +424,7 @@ GenWriteSizes == %s
 GenReadFroms == %s
 GenMaxCalls == %d
 GenHelperCodes == {200, 299, 300, 308, 309}
+GenRedirectCodes == {100, 101, 199, 201, 202, 204, 206, 226, 298, 310, 399, 400, 404, 500, 599}
 ====
 `, tlaStrSet(v.caps), tlaTuples([][]int{{0, 0}, {3, 3}, {3, 1}, {3, 0}}),
 			tlaTuples([][]int{{0, 0, 5}, {5, 5, 5}, {5, 2, 5}, {5, 5, 3}, {5, 0, 5}, {7, 7, 7}}), maxCalls)
